@@ -474,6 +474,8 @@ class Interp(object):
             if node is not None and self.may_inline(fn, path):
                 clo = Closure(node, None, inspect.unwrap(fn).__globals__, self.qual_of(fn), path)
                 return self.call_closure(clo, args, kwargs)
+            if all(self.is_plain(a) for a in args) and all(self.is_plain(a) for a in kwargs.values()):
+                return self.native_call(fn, args, kwargs)
             return self.opaque_call(Opaque(qual), args, kwargs)
         return self.native_call(fn, args, kwargs)
 
